@@ -431,6 +431,10 @@ def build_cases(tier, seed):
         for form in G.FORMS:
             for cname, st in ctxs:
                 cases.append(("field", form, st, None))
+    for f in G.statement_order_fields():
+        for form in G.FORMS:
+            cases.append(("field", form, [f], None))
+            cases.append(("field", form, [G.Field(G.Expr("(do (f 2) y)", "(f(2), y)[1]", "do", v=True)), f, G.Lit([G.Chunk("!")])], None))
     for st in G.literal_structures(full):
         for form in G.FORMS:
             cases.append(("literal", form, st, None))
